@@ -22,6 +22,7 @@ type Op struct {
 	Channel string `json:"channel,omitempty"` // pt_set | fg_set | pt_grow | st_set
 	Idx     int    `json:"idx,omitempty"`
 	N       int    `json:"n,omitempty"`
+	H       int    `json:"h,omitempty"`    // compile/closecomp/dropcomp/inst: which CompiledModule handle of (rt, slot): 0 first, 1 = the same runtime compiled the same binary a second time
 	Sub     []Op   `json:"sub,omitempty"`  // executed inside host.act during this call
 	Deps    []int  `json:"deps,omitempty"` // model: producers of the funcrefs this step calls through (their state feeds the observation too)
 	// model annotations (generator side, used for signatures and evidence only, never for the verdict)
@@ -31,6 +32,7 @@ type Op struct {
 	Tainted      bool     `json:"tainted,omitempty"`       // an earlier step of this history performed a stale use
 	UAC          []string `json:"uac,omitempty"`           // use-after-close categories this step performs
 	EntryCl      bool     `json:"entry_closed,omitempty"`  // entry instance closed when (or while) this call runs
+	CompOpen     bool     `json:"comp_open,omitempty"`     // inst: runtime, cache and the CompiledModule handle used are all open per model: instantiation must not fail for lack of compiled code
 	ClosedBefore bool     `json:"closed_before,omitempty"` // entry instance was already closed when the step began: not a live instance, only survival and invariance are judged
 	RelClose     bool     `json:"rel_close,omitempty"`     // something in the dependency closure of this step has been closed
 }
@@ -38,7 +40,9 @@ type Op struct {
 type History struct {
 	Seed       uint64    `json:"seed"`
 	Compiler   bool      `json:"compiler"`
-	TwoRT      bool      `json:"two_rt"`
+	TwoRT      bool      `json:"two_rt"`     // NRT > 1
+	NRT        int       `json:"nrt"`        // 1-3 runtimes sharing the cache object
+	CacheKind  string    `json:"cache_kind"` // none | mem | dir-cold | dir-warm (directory populated beforehand by another cache object; new object: in-memory miss, file hit)
 	Cache      bool      `json:"cache"`
 	EnsureTerm bool      `json:"ensure_term"`
 	AvoidKnown bool      `json:"avoid_known"`
@@ -53,8 +57,14 @@ func (o Op) String() string {
 	switch o.Kind {
 	case "compile", "closecomp", "dropcomp":
 		fmt.Fprintf(&sb, "%s rt%d m%d", o.Kind, o.RT, o.Slot)
+		if o.H > 0 {
+			sb.WriteString(" (second CompiledModule of the same binary)")
+		}
 	case "inst":
 		fmt.Fprintf(&sb, "inst #%d = rt%d m%d name=%q", o.Inst, o.RT, o.Slot, o.Name)
+		if o.H > 0 {
+			sb.WriteString(" (via the second CompiledModule)")
+		}
 	case "call":
 		fmt.Fprintf(&sb, "call #%d.%s%v", o.Inst, o.Name, o.Args)
 	case "passref":
@@ -114,15 +124,27 @@ type mInst struct {
 	st           []refInfo // only for the table owner
 }
 
+const maxRT = 3
+
+type cstate struct{ exists, closed, dropped bool }
+
+func (m *model) c(rt, slot, h int) *cstate {
+	if h > 0 {
+		return &m.comp2[rt][slot]
+	}
+	return &m.comp[rt][slot]
+}
+
 type model struct {
 	h          *History
-	rtClosed   [2]bool
-	rtDropped  [2]bool
-	hostClosed [2]bool
+	rtClosed   [maxRT]bool
+	rtDropped  [maxRT]bool
+	hostClosed [maxRT]bool
 	cacheCl    bool
-	comp       [2][]struct{ exists, closed, dropped bool }
+	comp       [maxRT][]cstate // first CompiledModule handle of (rt, slot)
+	comp2      [maxRT][]cstate // second handle (same runtime compiled the binary again)
 	inst       []*mInst
-	named      [2][]int // rt, slot -> instance id or -1
+	named      [maxRT][]int // rt, slot -> instance id or -1
 	anyClose   bool
 	tainted    bool
 	heldList   []int // held handle k -> instance id
@@ -132,8 +154,9 @@ type model struct {
 
 func newModel(h *History) *model {
 	m := &model{h: h, entry: make([]bool, len(h.Mods))}
-	for r := 0; r < 2; r++ {
-		m.comp[r] = make([]struct{ exists, closed, dropped bool }, len(h.Mods))
+	for r := 0; r < maxRT; r++ {
+		m.comp[r] = make([]cstate, len(h.Mods))
+		m.comp2[r] = make([]cstate, len(h.Mods))
 		m.named[r] = make([]int, len(h.Mods))
 		for i := range m.named[r] {
 			m.named[r][i] = -1
@@ -144,8 +167,9 @@ func newModel(h *History) *model {
 
 func (m *model) clone() *model {
 	c := *m
-	for r := 0; r < 2; r++ {
-		c.comp[r] = append([]struct{ exists, closed, dropped bool }(nil), m.comp[r]...)
+	for r := 0; r < maxRT; r++ {
+		c.comp[r] = append([]cstate(nil), m.comp[r]...)
+		c.comp2[r] = append([]cstate(nil), m.comp2[r]...)
 		c.named[r] = append([]int(nil), m.named[r]...)
 	}
 	c.inst = make([]*mInst, len(m.inst))
@@ -300,15 +324,13 @@ func (m *model) relatedClosed(id int, refs []refInfo) bool {
 		}
 	}
 	// the other runtime shares the engine through the cache
-	if m.h.TwoRT && (m.rtClosed[0] || m.rtClosed[1]) {
+	if m.h.TwoRT && (m.rtClosed[0] || m.rtClosed[1] || m.rtClosed[2]) {
 		return true
 	}
-	if m.h.Cache && m.h.TwoRT {
-		for r := 0; r < 2; r++ {
-			for _, c := range m.comp[r] {
-				if c.closed {
-					return true
-				}
+	for r := 0; r < maxRT; r++ { // other users of a shared engine entry
+		for s := range m.comp[r] {
+			if m.comp[r][s].closed || m.comp2[r][s].closed {
+				return true
 			}
 		}
 	}
@@ -323,7 +345,8 @@ type gen struct {
 	h         *History
 	m         *model
 	agenda    []Op // follow-ups that make close -> collect -> use sequences likely
-	slotsDone [2]int
+	slotsDone [maxRT]int
+	lastAnon  int // instance id of the latest anonymous instantiation (agenda ops with Inst == -1 refer to it)
 	engScen   int // 0 none, 1 pending, 2 done: close every compiled module, then the engine (cache / runtime) under live instances
 }
 
@@ -332,12 +355,34 @@ type gen struct {
 func GenHistory(seed uint64, compiler, avoidKnown bool) *History {
 	r := core.NewRng(int64(seed), 9)
 	h := &History{Seed: seed, Compiler: compiler, AvoidKnown: avoidKnown}
-	h.TwoRT = r.Chance(1, 5)
-	h.Cache = h.TwoRT || r.Chance(1, 4)
+	switch w := r.Intn(20); {
+	case w < 9:
+		h.CacheKind = "none"
+	case w < 13:
+		h.CacheKind = "mem"
+	case w < 15:
+		h.CacheKind = "dir-cold"
+	default:
+		h.CacheKind = "dir-warm"
+	}
+	h.NRT = 1
+	if h.CacheKind != "none" {
+		switch w := r.Intn(10); {
+		case w < 3:
+		case w < 8:
+			h.NRT = 2
+		default:
+			h.NRT = 3
+		}
+	}
+	h.TwoRT = h.NRT > 1
+	h.Cache = h.CacheKind != "none"
 	h.EnsureTerm = r.Chance(1, 6)
 	nMods := 2 + r.Intn(3)
-	if h.TwoRT {
+	if h.NRT == 2 {
 		nMods = 2 + r.Intn(2)
+	} else if h.NRT == 3 {
+		nMods = 1 + r.Intn(2)
 	}
 	for i := 0; i < nMods; i++ {
 		s := ModSpec{K: 1 + i + 10*r.Intn(9), Implicit: r.Chance(1, 3), ImpFunc: -1, ImpTable: -1, ImpGlobal: -1, ImpMem: -1}
@@ -404,8 +449,8 @@ func GenHistory(seed uint64, compiler, avoidKnown bool) *History {
 }
 
 func (g *gen) rts() int {
-	if g.h.TwoRT {
-		return 2
+	if g.h.NRT > 1 {
+		return g.h.NRT
 	}
 	return 1
 }
@@ -443,12 +488,13 @@ func (g *gen) next(i, target int) (Op, bool) {
 	}
 	if pendingSlots && (len(m.inst) < 2 || r.Chance(1, 2)) {
 		rt := r.Intn(g.rts())
-		if g.slotsDone[rt] >= len(g.h.Mods) {
-			rt = 1 - rt
+		for g.slotsDone[rt] >= len(g.h.Mods) {
+			rt = (rt + 1) % g.rts()
 		}
 		slot := g.slotsDone[rt]
 		spec := g.h.Mods[slot]
 		if !spec.Implicit && !m.comp[rt][slot].exists {
+			g.shareAgenda(rt, slot, 0)
 			return Op{Kind: "compile", RT: rt, Slot: slot}, true
 		}
 		g.slotsDone[rt]++
@@ -471,6 +517,18 @@ func (g *gen) next(i, target int) (Op, bool) {
 	if len(g.agenda) > 0 && r.Chance(3, 5) {
 		op := g.agenda[0]
 		g.agenda = g.agenda[1:]
+		if op.Kind == "inst" { // anonymous instantiation scheduled by an agenda
+			op.Inst = len(m.inst)
+			if len(m.inst) >= 10 {
+				return Op{}, false
+			}
+			g.lastAnon = op.Inst
+		} else if op.Inst == -1 {
+			op.Inst = g.lastAnon
+			if op.Kind == "passref" {
+				op.From = g.lastAnon
+			}
+		}
 		if g.valid(op) {
 			return g.finish(op)
 		}
@@ -513,7 +571,7 @@ func (g *gen) next(i, target int) (Op, bool) {
 			n = 50 + r.Intn(150)
 		}
 		return Op{Kind: "churn", N: n}, true
-	case w < 97: // anonymous extra instance of an explicit compiled module
+	case w < 98: // anonymous extra instance of an explicit compiled module / second compilation of its binary
 		rt := r.Intn(g.rts())
 		var slots []int
 		for s, sp := range g.h.Mods {
@@ -529,7 +587,17 @@ func (g *gen) next(i, target int) (Op, bool) {
 		if g.h.Mods[sl].Fail > 0 {
 			g.failAgenda(rt, sl, g.h.Mods[sl])
 		}
-		return Op{Kind: "inst", RT: rt, Slot: sl, Inst: len(m.inst), Name: ""}, true
+		// the same runtime compiles the binary a second time (a second user of the engine's entry)
+		if c2 := m.comp2[rt][sl]; !c2.exists && g.h.Mods[sl].Fail == 0 && r.Chance(1, 2) {
+			g.shareAgenda(rt, sl, 1)
+			return Op{Kind: "compile", RT: rt, Slot: sl, H: 1}, true
+		}
+		hh := 0
+		if c2 := m.comp2[rt][sl]; c2.exists && !c2.dropped && r.Bool() {
+			hh = 1
+		}
+		g.lastAnon = len(m.inst)
+		return Op{Kind: "inst", RT: rt, Slot: sl, Inst: len(m.inst), Name: "", H: hh}, true
 	default: // hold / call a held api.Function
 		if len(m.heldList) > 0 && r.Bool() {
 			k := r.Intn(len(m.heldList))
@@ -556,6 +624,9 @@ func (g *gen) engineCloseAgenda() {
 		for s, sp := range g.h.Mods {
 			if !sp.Implicit && m.comp[rt][s].exists && !m.comp[rt][s].dropped {
 				closes = append(closes, Op{Kind: "closecomp", RT: rt, Slot: s})
+			}
+			if m.comp2[rt][s].exists && !m.comp2[rt][s].dropped {
+				closes = append(closes, Op{Kind: "closecomp", RT: rt, Slot: s, H: 1})
 			}
 		}
 		closes = append(closes, Op{Kind: "closehost", RT: rt})
@@ -604,6 +675,53 @@ func (g *gen) engineCloseAgenda() {
 	g.agenda = append(ag, g.agenda...)
 }
 
+// shareAgenda: (rt, slot, h) is about to be compiled. If another still open
+// CompiledModule of the same binary uses the same engine (same runtime, or a
+// runtime sharing the cache), one of the users closes its handle (or its
+// runtime) and the other goes on: a fresh instantiation through the still open
+// handle, calls and a trap (stack trace) on it and on older instances.
+func (g *gen) shareAgenda(rt, slot, h int) {
+	r, m := g.r, g.m
+	if g.h.Mods[slot].Fail > 0 || !r.Chance(3, 4) {
+		return
+	}
+	type user struct{ rt, h int }
+	var others []user
+	for orr := 0; orr < g.rts(); orr++ {
+		for hh := 0; hh < 2; hh++ {
+			if orr == rt && hh == h {
+				continue
+			}
+			if orr != rt && !g.h.Cache {
+				continue
+			}
+			if c := m.c(orr, slot, hh); c.exists && !c.closed && !c.dropped && !m.rtClosed[orr] {
+				others = append(others, user{orr, hh})
+			}
+		}
+	}
+	if len(others) == 0 {
+		return
+	}
+	o := others[r.Intn(len(others))]
+	closer, keeper := o, user{rt, h}
+	if r.Bool() {
+		closer, keeper = keeper, closer
+	}
+	var ag []Op
+	ag = append(ag, Op{Kind: "closecomp", RT: closer.rt, Slot: slot, H: closer.h})
+	if r.Chance(1, 3) {
+		ag = append(ag, Op{Kind: "dropcomp", RT: closer.rt, Slot: slot, H: closer.h}, Op{Kind: "gc"})
+	}
+	ag = append(ag, Op{Kind: "inst", RT: keeper.rt, Slot: slot, H: keeper.h, Name: ""},
+		Op{Kind: "call", Inst: -1, Name: "tramp", Args: []uint64{uint64(100 + r.Intn(400))}},
+		Op{Kind: "call", Inst: -1, Name: "pt_call", Args: []uint64{3}}) // null slot: trap with a stack trace
+	if r.Bool() {
+		ag = append(ag, Op{Kind: "call", Inst: -1, Name: "do_act", Args: []uint64{uint64(r.Intn(50)), 0}})
+	}
+	g.agenda = append(g.agenda, ag...)
+}
+
 // failAgenda: after a failing instantiation wrote into the shared table:
 // close/drop its compiled module, collect, churn, then a live member of the
 // table's group calls through the written slots.
@@ -649,10 +767,13 @@ func (g *gen) valid(op Op) bool {
 	m := g.m
 	switch op.Kind {
 	case "closemod", "drop", "call", "lookup":
-		return op.Inst < len(m.inst) && m.inst[op.Inst].ref && !m.inst[op.Inst].absent
+		return op.Inst >= 0 && op.Inst < len(m.inst) && m.inst[op.Inst].ref && !m.inst[op.Inst].absent
 	case "closecomp", "dropcomp":
-		c := m.comp[op.RT][op.Slot]
+		c := m.c(op.RT, op.Slot, op.H)
 		return c.exists && !c.dropped
+	case "inst":
+		c := m.c(op.RT, op.Slot, op.H)
+		return c.exists && !c.dropped && !m.cacheCl
 	case "passref":
 		return op.Inst < len(m.inst) && m.inst[op.Inst].ref && m.inst[op.From].ref && !m.isClosed(op.From)
 	}
@@ -673,16 +794,19 @@ func (g *gen) genClose(m *model) (Op, bool) {
 		return Op{Kind: "closemod", Inst: pick(r, ids)}, true
 	case w < 15:
 		rt := r.Intn(g.rts())
-		var slots []int
+		var slots []int // slot*2 + handle
 		for s := range g.h.Mods {
-			if c := m.comp[rt][s]; c.exists && !c.dropped {
-				slots = append(slots, s)
+			for hh := 0; hh < 2; hh++ {
+				if c := m.c(rt, s, hh); c.exists && !c.dropped {
+					slots = append(slots, s*2+hh)
+				}
 			}
 		}
 		if len(slots) == 0 {
 			return Op{}, false
 		}
-		return Op{Kind: "closecomp", RT: rt, Slot: pick(r, slots)}, true
+		sh := pick(r, slots)
+		return Op{Kind: "closecomp", RT: rt, Slot: sh / 2, H: sh % 2}, true
 	case w < 17:
 		rt := r.Intn(g.rts())
 		if m.rtDropped[rt] || (!g.h.TwoRT && len(g.h.Steps) < 12) {
@@ -716,14 +840,17 @@ func (g *gen) genDrop(m *model) (Op, bool) {
 		rt := r.Intn(g.rts())
 		var slots []int
 		for s := range g.h.Mods {
-			if c := m.comp[rt][s]; c.exists && !c.dropped {
-				slots = append(slots, s)
+			for hh := 0; hh < 2; hh++ {
+				if c := m.c(rt, s, hh); c.exists && !c.dropped {
+					slots = append(slots, s*2+hh)
+				}
 			}
 		}
 		if len(slots) == 0 {
 			return Op{}, false
 		}
-		return Op{Kind: "dropcomp", RT: rt, Slot: pick(r, slots)}, true
+		sh := pick(r, slots)
+		return Op{Kind: "dropcomp", RT: rt, Slot: sh / 2, H: sh % 2}, true
 	default:
 		rt := r.Intn(g.rts())
 		if !m.rtClosed[rt] || m.rtDropped[rt] {
@@ -1003,8 +1130,7 @@ func (m *model) applyLifecycle(op *Op, extraRoots ...int) {
 			m.comp[m.inst[op.Inst].rt][m.inst[op.Inst].slot].closed = true
 		}
 	case "closecomp":
-		m.comp[op.RT][op.Slot].closed = true
-		m.entry[op.Slot] = false
+		m.c(op.RT, op.Slot, op.H).closed = true
 		m.anyClose = true
 	case "closert":
 		m.rtClosed[op.RT] = true
@@ -1018,7 +1144,9 @@ func (m *model) applyLifecycle(op *Op, extraRoots ...int) {
 			if m.comp[op.RT][s].exists {
 				m.comp[op.RT][s].closed = true
 			}
-			m.entry[s] = false // conservative
+			if m.comp2[op.RT][s].exists {
+				m.comp2[op.RT][s].closed = true
+			}
 		}
 	case "closecache":
 		m.cacheCl = true
@@ -1029,7 +1157,7 @@ func (m *model) applyLifecycle(op *Op, extraRoots ...int) {
 	case "drop":
 		m.inst[op.Inst].ref = false
 	case "dropcomp":
-		m.comp[op.RT][op.Slot].dropped = true
+		m.c(op.RT, op.Slot, op.H).dropped = true
 	case "droprt":
 		m.rtDropped[op.RT] = true
 	case "gc":
@@ -1050,12 +1178,10 @@ func (g *gen) annotateAndApply(m *model, op *Op) {
 	uac := func(cat string) { op.UAC = append(op.UAC, cat) }
 	switch op.Kind {
 	case "compile":
-		c := &m.comp[op.RT][op.Slot]
+		c := m.c(op.RT, op.Slot, op.H)
 		c.exists = true
 		if m.rtClosed[op.RT] || m.cacheCl {
 			c.closed = true // compile fails or is useless
-		} else {
-			m.entry[op.Slot] = true
 		}
 	case "inst":
 		in := &mInst{id: op.Inst, rt: op.RT, slot: op.Slot, named: op.Name != "", ref: true}
@@ -1083,13 +1209,13 @@ func (g *gen) annotateAndApply(m *model, op *Op) {
 		if m.rtClosed[op.RT] || m.rtDropped[op.RT] || m.cacheCl || (m.hostClosed[op.RT] && s.Fail != 1) {
 			in.absent = true
 		}
+		op.CompOpen = !m.rtClosed[op.RT] && !m.rtDropped[op.RT] && !m.cacheCl
 		if !s.Implicit {
-			cm := m.comp[op.RT][op.Slot]
+			// the engine counts the users of a compiled-module entry: only the state of the handle used matters
+			cm := *m.c(op.RT, op.Slot, op.H)
 			if !cm.exists || cm.closed || cm.dropped {
 				in.absent = true
-			}
-			if g.h.TwoRT && !m.entry[op.Slot] { // the other runtime deleted the shared engine entry
-				in.absent = true
+				op.CompOpen = false
 			}
 		}
 		for _, slot := range []int{s.ImpFunc, s.ImpMem, s.ImpTable, s.ImpGlobal} {
@@ -1333,7 +1459,7 @@ func (g *gen) annotateAndApply(m *model, op *Op) {
 // ManualHistory builds the minimal hand-written history for one funcref
 // channel (reproducers of the known defect; also used by replay).
 func ManualHistory(channel string, compiler bool) *History {
-	h := &History{Seed: 1, Compiler: compiler, Small: true}
+	h := &History{Seed: 1, Compiler: compiler, Small: true, NRT: 1, CacheKind: "none"}
 	a := ModSpec{K: 1, ImpFunc: -1, ImpTable: -1, ImpGlobal: -1, ImpMem: -1}
 	b := ModSpec{K: 2, ImpFunc: -1, ImpTable: -1, ImpGlobal: -1, ImpMem: -1}
 	var pass, use Op
@@ -1361,6 +1487,33 @@ func ManualHistory(channel string, compiler bool) *History {
 		pass = Op{Kind: "passref", From: 0, Inst: 1, Which: 3, Channel: "pt_set", Idx: 2}
 		use = Op{Kind: "call", Inst: 1, Name: "pt_call2", Args: []uint64{2, 5, 0},
 			Sub: []Op{{Kind: "closemod", Inst: 0}, {Kind: "closecomp", RT: 0, Slot: 0}, {Kind: "drop", Inst: 0}, {Kind: "dropcomp", RT: 0, Slot: 0}, {Kind: "gc"}}}
+	case "shared-compiled", "shared-compiled-twice":
+		// two users of one binary's engine entry restored from a WARM directory cache (two runtimes sharing the cache
+		// object / one runtime compiling twice); the first user closes its CompiledModule, the other must keep working
+		h.Mods = []ModSpec{a}
+		h.CacheKind, h.Cache = "dir-warm", true
+		g := &gen{h: h, m: newModel(h)}
+		var steps []Op
+		trap := Op{Kind: "call", Inst: 1, Name: "pt_call", Args: []uint64{3}}
+		if channel == "shared-compiled" {
+			h.NRT, h.TwoRT = 2, true
+			steps = []Op{{Kind: "compile", RT: 0, Slot: 0}, {Kind: "compile", RT: 1, Slot: 0}, {Kind: "inst", RT: 0, Slot: 0, Inst: 0, Name: "m0"},
+				{Kind: "inst", RT: 1, Slot: 0, Inst: 1, Name: "m0"}, {Kind: "closecomp", RT: 0, Slot: 0}, {Kind: "gc"},
+				{Kind: "inst", RT: 1, Slot: 0, Inst: 2, Name: ""}, {Kind: "call", Inst: 2, Name: "tramp", Args: []uint64{300}}, trap,
+				{Kind: "closemod", Inst: 0}, {Kind: "drop", Inst: 0}, {Kind: "closert", RT: 0}, {Kind: "gc"},
+				{Kind: "inst", RT: 1, Slot: 0, Inst: 3, Name: ""}, {Kind: "call", Inst: 3, Name: "do_act", Args: []uint64{5, 0}}, trap}
+		} else {
+			h.NRT = 1
+			steps = []Op{{Kind: "compile", Slot: 0}, {Kind: "compile", Slot: 0, H: 1}, {Kind: "inst", Slot: 0, Inst: 0, Name: "m0"},
+				{Kind: "inst", Slot: 0, H: 1, Inst: 1, Name: ""}, {Kind: "closecomp", Slot: 0}, {Kind: "gc"},
+				{Kind: "inst", Slot: 0, H: 1, Inst: 2, Name: ""}, {Kind: "call", Inst: 2, Name: "tramp", Args: []uint64{300}}, trap,
+				{Kind: "call", Inst: 0, Name: "do_act", Args: []uint64{5, 0}}}
+		}
+		for _, op := range steps {
+			g.emit(op)
+		}
+		h.NInst = len(g.m.inst)
+		return h
 	case "engine-close", "engine-close-inflight":
 		// every CompiledModule (and the host module) is closed while instance #0 stays open, then the engine is
 		// closed - through the cache, or through Runtime.Close inside host.act with #0's caller on the stack -
@@ -1373,7 +1526,7 @@ func ManualHistory(channel string, compiler bool) *History {
 			{Kind: "passref", From: 0, Inst: 0, Which: 1, Channel: "pt_grow", N: 1}, {Kind: "call", Inst: 0, Name: "do_act", Args: []uint64{5, 0}},
 			{Kind: "call", Inst: 0, Name: "pt_call", Args: []uint64{4}}}
 		if channel == "engine-close" {
-			h.Cache = true
+			h.Cache, h.CacheKind = true, "mem"
 			steps = append(append(append(steps, closes...), Op{Kind: "closecache"}, Op{Kind: "gc"}), after...)
 		} else {
 			steps = append(steps, Op{Kind: "call", Inst: 0, Name: "do_act", Args: []uint64{5, 0},
